@@ -93,6 +93,25 @@ def inflight_cases(rng):
                     fails.append(('items_not_transparent', {'kind': 'map(f, num_workers).items() over a per-epoch reshuffle', 'n': n, 'workers': w, 'buffer': b,
                                                             'seed': seed2, 'epoch': epoch, 'delivered': repr(gp), 'expected': repr(gs)}))
                     break
+        if rng.random() < 0.5:
+            # the parallel map over a per-epoch reshuffle, frozen: one fixed order in every pass, the one of the equally
+            # seeded sequential pipeline; and the stages that freeze their input (pool prefetch, catch) deliver
+            seed3 = rng.randrange(1 << 30)
+
+            def mkb():
+                return lazy_dataset.new(src).shuffle(reshuffle=True, rng=np.random.RandomState(seed3))
+            try:
+                fp = mkb().map(f, num_workers=w, buffer_size=b).copy(freeze=True)
+                fs = mkb().map(f).copy(freeze=True)
+                passes = [[list(fp), list(fs)] for _ in range(3)]
+                on_top = {'prefetch(2, 2)': list(mkb().map(f, num_workers=w, buffer_size=b).prefetch(2, 2)),
+                          'catch()': list(mkb().map(f, num_workers=w, buffer_size=b).catch())}
+            except Exception as e:  # noqa
+                fails.append(('frozen_parallel_map_not_transparent', {'kind': 'parmap', 'n': n, 'workers': w, 'buffer': b, 'seed': seed3, 'error': repr(e)[:200]}))
+            else:
+                if any(a != c for a, c in passes) or any(sorted(v, key=repr) != want for v in on_top.values()):
+                    fails.append(('frozen_parallel_map_not_transparent', {'kind': 'parmap', 'n': n, 'workers': w, 'buffer': b, 'seed': seed3,
+                                                                          'passes_parallel_vs_sequential': repr(passes), 'stages_on_top': repr(on_top)}))
         for i, g in enumerate(got):
             ok = (sorted(g, key=repr) == want) if reshuffle else (g == [f(x) for x in vals])
             if not ok:
@@ -120,7 +139,7 @@ def run(rep):
 
 
 def replay(j):
-    if str(j.get('clause', '')).startswith(('iteration_in_flight', 'items_not_transparent')):
+    if str(j.get('clause', '')).startswith(('iteration_in_flight', 'items_not_transparent', 'frozen_parallel_map')):
         print(j)
         return 1
     return concrun.replay('C04', WHICH, j)
